@@ -181,6 +181,13 @@ class Reader:
                 names = self.ext.get(imports.get(setid))
                 if names is not None and t in names:
                     return ["X%x" % names[t]]
+                if names is not None and t.isdigit():
+                    # C07: numbers of GLSL.std.450 / OpenCL.std are shown by name; a bare number is only right
+                    # for a number the set does not declare
+                    named = [nm for nm, v in names.items() if v == int(t)]
+                    if named:
+                        raise ValueError("extended instruction %s of set %s is printed as a number, its specification name is %s"
+                                         % (t, imports.get(setid), named[0]))
                 return ["X%x" % int(t)]
             if kind == "LiteralString":
                 k, t = nxt()
